@@ -311,6 +311,25 @@ Theorem C15_referrers_404 :
 Proof. exact handle_404. Qed.
 Print Assumptions C15_referrers_404.
 
+(* pingReferrers agrees with Referrers: a known capability is returned without change; from
+   the unknown state "unsupported" is answered exactly for the responses that the referrers
+   listing reads as "no referrers API", "supported" exactly for 200 + index media type, and
+   the capability is set accordingly (errors leave it unknown) *)
+Theorem C15_ping_agrees :
+  forall st rs c,
+    c_kind c = KReferrers ->
+    (st = RSupported -> ping st rs = (st, Some true)) /\
+    (st = RUnsupported -> ping st rs = (st, Some false)) /\
+    (st = RUnknown ->
+       (snd (ping st rs) = Some false <->
+          (handle c rs = inl ErrUnsupported \/ handle c rs = inl ErrCType)) /\
+       (snd (ping st rs) = Some true <-> (rs_status rs = 200 /\ rs_ctype rs = mediaTypeImageIndex)) /\
+       (fst (ping st rs) = RUnsupported <-> snd (ping st rs) = Some false) /\
+       (fst (ping st rs) = RSupported <-> snd (ping st rs) = Some true) /\
+       (fst (ping st rs) = RUnknown <-> snd (ping st rs) = None)).
+Proof. exact ping_spec. Qed.
+Print Assumptions C15_ping_agrees.
+
 (* ---------- several link-values / Link lines ---------- *)
 
 (* Only the first Link line is read (rs_link = hd), and of it the first "<...>"
